@@ -10,5 +10,6 @@ cp /repo/Cargo.lock harness/Cargo.lock 2>/dev/null || true
 python3 tools/gen_zorro_consts.py || true
 ( cd coq && coq_makefile -f _CoqProject -o Makefile >/dev/null && timeout 7000 make -j16 2>&1 | grep -v "^Closed under\|^COQ" | tail -20 )
 ( cd harness && cargo build --release --offline 2>&1 | tail -3 )
+( cd fixturegen && env -u RUSTFLAGS -u CARGO_TARGET_DIR cargo build --release --offline 2>&1 | tail -3 )
 test -x harness/target/release/bpharness
 echo "setup done"
